@@ -189,6 +189,10 @@ def main():
     P.oblige('standalone.constants', 'Standalone/mga2gda.py', '11 module constants (exhaustive)', dict(result='discharged' if okc else 'sat', backend='native comparison', ms=0), strict=True,
              note='A within 1e-6 m, beta_j within 1e-13, e within 1e-13 of the library\'s GRS80 values (inverse flattening 298.25722210088 vs 298.257222101); max beta deviation %.2e' % max(devs))
 
+    # ---------------------------------------------------------------- the object API named as an observation point (props/coordlib.py)
+    from . import coordlib
+    m2 = E.load_repo(tuple(ALL) + ('geodepy.coord',))
+    coordlib.wiring(P, m2, sym_ellipsoid(m2['geodepy.constants']), sym_projection(m2['geodepy.constants']), ('CoordTM.geo',))
     B.report(P, 'bounded.C02')
     P.finish('proof')
 
